@@ -1,3 +1,5 @@
 import PubModel.Sni.DriverCore
+import PubModel.Sni.TeardownDriver
 open PubModel PubModel.Sni
-def main : IO Unit := runLines (fun (d : DState) l => d.step l) { st := init [] }
+def main : IO Unit := runLines
+  (fun (d : DState) l => if l.startsWith "teardown" then (d, TeardownDrv.step l) else d.step l) { st := init [] }
